@@ -359,10 +359,13 @@ class Executor:
             except Exception:
                 pass
             try:
-                self.p.kill()
+                self.p.wait(timeout=2)     # EOF on stdin: the executor removes its scratch directory and exits
             except Exception:
-                pass
-            self.p.wait()
+                try:
+                    self.p.kill()
+                except Exception:
+                    pass
+                self.p.wait()
             self.p = None
 
 
